@@ -38,8 +38,22 @@ def demanded_spreads(schema, static_t, sel_sets, frags):
     """Fragment names F directly spread in a selection set of static type T, F on exactly T, F without inline fragments,
     and the selection set does not split T into per-type classes (all direct selections are fields or such spreads)."""
     out = []
-    for ss in sel_sets:
-        direct = list(ss.selections)
+    # the scope of a position: its selection sets plus those of fragments / inline fragments ON THE SAME TYPE reached from them
+    # (a fragment that is unpacked into the class still "directly spreads" the fragments of its own selection set)
+    scope, todo, seen = [], list(sel_sets), set()
+    while todo:
+        ss = todo.pop(0)
+        if id(ss) in seen:
+            continue
+        seen.add(id(ss))
+        scope.append(ss)
+        for s in ss.selections:
+            if s.kind == "inline_fragment" and (s.type_condition is None or s.type_condition.name.value == static_t.name):
+                todo.append(s.selection_set)
+            elif s.kind == "fragment_spread" and s.name.value in frags and frags[s.name.value].type_condition.name.value == static_t.name and not s.directives:
+                todo.append(frags[s.name.value].selection_set)
+    for ss in scope:
+        direct = [x for x in ss.selections if not (x.kind == "inline_fragment" and (x.type_condition is None or x.type_condition.name.value == static_t.name))]
         pure = True
         names = []
         for s in direct:
@@ -222,6 +236,9 @@ def build_cases(tier):
         ("FUser_object_under_union", "fragment F on User { id name }", ["query One { userReq { ...F friend { ...F } } }", "query Two { u { ...F } }"]),
         ("FNamed_interface_under_interface", "fragment F on Named { name }", ["query One { named { ...F } }", "query Two { node { ...F } }"]),
         ("FUser_with_inline_and_plain", "fragment F on User { id }\nfragment G on User { name ... on Named { id } }", ["query One { user { ...F ...G } }", "query Two { user { ...G } }"]),
+        ("Full_unpacked_spreads_Core", "fragment Core on User { id name }\nfragment Full on User { ...Core ... on User { age } }", ["query One { user { ...Full } }", "query Two { userReq { ...Full friend { ...Core } } }"]),
+        ("Card_spreads_Full_spreads_Core", "fragment Core on User { id name }\nfragment Full on User { ...Core ... on User { age } }\nfragment Card on User { ...Full kind }", ["query One { user { ...Card } }"]),
+        ("Inline_same_type_spreads_Core", "fragment Core on User { id name }", ["query One { user { ... on User { ...Core age } } }"]),
         ("FNode_only_unpacked", "fragment F on Node { id }", ["query One { user { ...F } }"]),
         ("FNode_same_only", "fragment F on Node { id }", ["query Two { node { ...F } nodes { ...F } }"]),
         ("FUser_in_list_and_nested", "fragment F on User { id friend { id } }", ["query One { user { friends { ...F } friend { ...F } } }"]),
